@@ -45,6 +45,8 @@ type Engine struct {
 	cardDone map[string]bool
 	condSets map[string]condSetInfo
 	privGlobals []string
+	condHandles map[string]condHandle
+	privFields  map[string]string // field component -> package path, for unexported fields
 }
 
 type CallRec struct {
@@ -91,6 +93,7 @@ type Frame struct {
 	params    []Term
 	srcNames  map[string]ssa.Value
 	srcRefs   map[string][]*ssa.DebugRef
+	srcAddrs  map[string]ssa.Value
 	parent    *Frame
 	curBlock  *ssa.BasicBlock
 	curIdx    int
@@ -156,6 +159,12 @@ func (e *Engine) fieldComp(structT types.Type, i int) (comp string, boxed bool) 
 		return e.boxComp(ft), true
 	}
 	name := fmt.Sprintf("F$%s$%s", shortTypeKey(structT), st.Field(i).Name())
+	if nt, ok := structT.(*types.Named); ok && nt.Obj().Pkg() != nil && !st.Field(i).Exported() {
+		if e.privFields == nil {
+			e.privFields = map[string]string{}
+		}
+		e.privFields[name] = nt.Obj().Pkg().Path()
+	}
 	return e.comp(name, fmt.Sprintf("(Array Loc %s)", e.vc.sortOf(ft))), false
 }
 
@@ -349,6 +358,28 @@ func (e *Engine) newFrame(fn *ssa.Function, parent *Frame) *Frame {
 	amb := map[string]bool{}
 	for _, b := range fn.Blocks {
 		for _, ins := range b.Instrs {
+			if al, ok := ins.(*ssa.Alloc); ok && al.Comment != "" && al.Comment != "complit" && al.Comment != "new" && al.Comment != "varargs" {
+				if fr.srcAddrs == nil {
+					fr.srcAddrs = map[string]ssa.Value{}
+				}
+				if old, ok := fr.srcAddrs[al.Comment]; ok && old != al {
+					fr.srcAddrs[al.Comment] = nil
+				} else if !ok {
+					fr.srcAddrs[al.Comment] = al
+				}
+			}
+			if d, ok := ins.(*ssa.DebugRef); ok && d.IsAddr {
+				if id, ok := d.Expr.(*ast.Ident); ok {
+					if fr.srcAddrs == nil {
+						fr.srcAddrs = map[string]ssa.Value{}
+					}
+					if old, ok := fr.srcAddrs[id.Name]; ok && old != d.X {
+						fr.srcAddrs[id.Name] = nil
+					} else if !ok {
+						fr.srcAddrs[id.Name] = d.X
+					}
+				}
+			}
 			if d, ok := ins.(*ssa.DebugRef); ok && !d.IsAddr {
 				if id, ok := d.Expr.(*ast.Ident); ok {
 					fr.srcRefs[id.Name] = append(fr.srcRefs[id.Name], d)
@@ -730,6 +761,23 @@ func (fr *Frame) loopBindings(h *ssa.BasicBlock, st *State, phiVal func(*ssa.Phi
 	if ri := fr.rangeOfLoop(h); ri != nil {
 		env["$i"] = binding{fr.eng.get(st, ri.ctrComp), tInt}
 		env["$n"] = binding{ri.n, tInt}
+	}
+	// range indices of the other (enclosing) loops: $i<ordinal>
+	for h2, ord := range fr.loopOrd {
+		if h2 == h {
+			continue
+		}
+		for _, ins := range h2.Instrs {
+			phi, ok := ins.(*ssa.Phi)
+			if !ok {
+				break
+			}
+			if n := phiName(phi); n == "rangeindex" || n == "rangeint.iter" {
+				if t, ok := fr.vals[phi]; ok {
+					env[fmt.Sprintf("$i%d", ord)] = binding{t, phi.Type()}
+				}
+			}
+		}
 	}
 	for _, ins := range h.Instrs {
 		phi, ok := ins.(*ssa.Phi)
